@@ -55,6 +55,16 @@ CLAIMS = {
    text="Pairs of subsets of 5-element universes (f64, signed zeros, u8, i64, rationals with unreduced spellings, strings, bools, tuples, nested sets with permuted inner orders) are written as literals in permuted insertion orders and combined with every set operator, relation and membership test, chained, and built by comprehensions; results are compared with the mathematical result after mapping elements back to universe ids learned from singleton literals.",
    note="Element identity is the language's own equality (0 = -0, 2/4 = 1/2, {1,2} = {2,1}). Universes whose spellings exercise a recorded defect (signed zeros, permuted inner sets) are separate cells so the plain universes stay fully monitored.",
    ref="6/C14"),
+ "C06": dict(
+   technique="runtime monitoring: differential execution (interpreter session A vs compile -> from_bytes -> run_program in a FRESH interpreter B) over a construct sweep and typed composite programs; every stage under catch_unwind in a subprocess; unregistered-function attribution by compiling each plan step alone; ASan flavour in thorough",
+   text="Each generated program is interpreted, compiled, loaded and run in a fresh interpreter; canonical results must be equal, restricted-class programs must compile, load and run, and no stage may panic, hang or abort. Failures are attributed to the plan arm whose bytecode names an unregistered function.",
+   note="Only the program result is compared (the compiler emits no symbol section, so a fresh interpreter has no variables to compare). Composite programs are mostly drawn from the constructs whose bytecode is registered so that recorded registry gaps do not mask the rest.",
+   ref="6/C06"),
+ "C07": dict(
+   technique="runtime monitoring: exhaustive truncation / single-bit-flip / burst enumeration and CRC-repaired structural mutation of emitted files against the real loader, with a counting global allocator (largest request, peak), catch_unwind and a subprocess watchdog as monitors; round-trip and decoded-vs-CompileCtx comparison",
+   text="For every corpus file: to_bytes(from_bytes(b)) = b and the decoded header, constants and instructions equal what the compiler holds; every truncation, every single-bit flip and bursts up to 32 bits must be rejected; hostile header fields, hostile words over every body byte, splices and random byte strings (checksum recomputed) must neither panic, abort, exceed the allocation bound nor hang the loader, the constant decoder or the re-encoder.",
+   note="Bound: largest single request <= 64 MiB + 64 x file length; the monitor refuses requests above 1 GiB so they are observed as aborts. Hangs surface through the watchdog as inconclusive (never a verdict by wall-clock).",
+   ref="6/C07"),
 }
 NOT_YET = "not claimed yet: the monitor for this property is still being built in this session (see DESIGN.md section 6 for the planned check)"
 
